@@ -45,6 +45,10 @@ pub struct UZone {
     /// positive answers carry the apex NS set and its addresses as well
     pub extra_sections: bool,
     pub ns_ttl: u32,
+    /// which address families the parent's glue for this zone carries:
+    /// 0 both, 1 IPv4 only, 2 IPv6 only (a registry holding partial glue)
+    #[serde(default)]
+    pub glue_families: u8,
 }
 
 #[derive(Debug, Clone, PartialEq, Eq, Hash, Serialize, Deserialize)]
@@ -52,6 +56,10 @@ pub struct Universe {
     /// zones[0] is the root; parents precede children
     pub zones: Vec<UZone>,
     pub hosts: Vec<UHost>,
+    /// split hosts: the box behind this address (text form) does not serve
+    /// the zone with this apex, although the host name is one of its NS
+    #[serde(default)]
+    pub unserved: Vec<(String, N)>,
 }
 
 pub struct UniverseOpts {
@@ -109,8 +117,10 @@ impl Universe {
     /// Zones served at an address.
     pub fn zones_at(&self, ip: IpAddr) -> Vec<usize> {
         let names: Vec<&N> = self.hosts.iter().filter(|h| h.ips().contains(&ip)).map(|h| &h.name).collect();
+        let ip_text = ip.to_string();
         (0..self.zones.len())
             .filter(|i| self.zones[*i].ns.iter().any(|n| names.contains(&n)))
+            .filter(|i| !self.unserved.iter().any(|(a, apex)| *a == ip_text && *apex == self.zones[*i].apex))
             .collect()
     }
 
@@ -160,6 +170,9 @@ impl Universe {
                 let ttl = self.zones[self.deepest_zone(n)].ns_ttl;
                 let zm_ttl = self.zones[self.deepest_zone(n)].soa.minimum.max(ttl);
                 for r in self.addr_records(h, zm_ttl) {
+                    if (cz.glue_families == 1 && r.rtype != T_A) || (cz.glue_families == 2 && r.rtype != T_AAAA) {
+                        continue;
+                    }
                     out.push(WRR { name: r.owner, rtype: r.rtype, rclass: 1, ttl: r.ttl, data: r.data });
                 }
             }
@@ -217,6 +230,14 @@ impl Universe {
         let z = &self.zones[zi];
         let row = |r: &RRow| WRR { name: r.0.clone(), rtype: r.1, rclass: 1, ttl: r.3, data: r.2.clone() };
         let soa = || z.soa.rr(&z.apex);
+        // servers that fill the extra sections send negative answers in the
+        // RFC 2308 "type 1" shape: the zone's own NS set next to the SOA
+        let negative_ns = || -> Vec<WRR> {
+            if !z.extra_sections {
+                return vec![];
+            }
+            z.ns.iter().map(|n| WRR { name: z.apex.clone(), rtype: T_NS, rclass: 1, ttl: z.ns_ttl.max(z.soa.minimum), data: WData::Name(n.clone()) }).collect()
+        };
         match zm.lookup_opts(eff, &name, q.qtype, false) {
             ZR::Referral(ns) => {
                 // reached while chasing an alias: hand out the referral only
@@ -241,6 +262,7 @@ impl Universe {
             ZR::Answer(_) => {
                 resp.aa = true;
                 resp.authority = vec![soa()];
+                resp.authority.extend(negative_ns());
                 resp
             }
             ZR::NameError => {
@@ -248,6 +270,7 @@ impl Universe {
                 // RCODE describes the last name of the chain, as real servers do
                 resp.rcode = 3;
                 resp.authority = vec![soa()];
+                resp.authority.extend(negative_ns());
                 resp
             }
             ZR::Alias(c) => {
@@ -464,10 +487,11 @@ pub fn gen_universe(g: &mut Gen, o: &UniverseOpts) -> Universe {
             chases: g.bool(),
             extra_sections: g.chance(1, 3),
             ns_ttl: g.pick(&[300u32, 3600, 60]),
+            glue_families: 0,
         });
     }
     // the root's own servers live under "rs.", which the root zone holds itself
-    let mut u = Universe { zones, hosts };
+    let mut u = Universe { zones, hosts, unserved: vec![] };
 
     // data
     let mut alias_targets: Vec<N> = Vec::new(); // names that may be aliased to (created earlier => acyclic)
